@@ -311,4 +311,11 @@
    ------------------ */
 #define EXPERIMENTAL_SCHEDULER 0
 
+/* verification hooks; empty macros unless compiled with -DMYTH_VERIF */
+#include "myth_verif.h"
+#if defined(MYTH_VERIF)
+#undef INITIAL_QUEUE_SIZE
+#define INITIAL_QUEUE_SIZE (myth_verif_queue_size(65536*2))
+#endif
+
 #endif /* MYTH_CONFIG_H_ */
